@@ -150,14 +150,17 @@ theorem solveGoal_overflow (inst : Instance) (cfg : Cfg) (d g : Nat) (m : Min) (
 /-! ### stack-only changes -/
 
 section
-variable {c : Bool} {inst : Instance} {dom : List Nat}
+variable {c : Bool} {inst : Instance} {dom : List Nat} {fx : Bool}
 
-theorem Inv.stackChange {s s' : St} (h : Inv c inst dom s) (hg : s'.graph = s.graph) (R : Rest s s')
-    (hext : StackExt s.stack s'.stack) : Inv c inst dom s' := by
+theorem Inv.stackChange {s s' : St} (h : Inv c inst dom fx s) (hg : s'.graph = s.graph) (R : Rest s s')
+    (hext : StackExt s.stack s'.stack) : Inv c inst dom fx s' := by
   have hwit : ∀ {lb : Min} {j : Nat}, Wit c inst s lb j → Wit c inst s' lb j :=
     fun hw => hw.from0 ⟨[], by rw [hg, List.append_nil]⟩ (fun d hd => hext.flag hd)
-  refine ⟨?_, fun k v hk => h.cacheOK k v (R.inCache.mp hk), ?_, ?_, ?_, ?_, ?_, ?_, ?_, ?_, ?_, ?_⟩
-  · rw [R.oracle, R.oracleDefault, R.interrupted]; exact h.quiet
+  refine ⟨fixes_of_eq h.fixes R.oracle R.oracleDefault R.interrupted, ?_,
+    fun k v hk => h.cacheOK k v (R.inCache.mp hk), ?_, ?_, ?_, ?_, ?_, ?_, ?_, ?_, ?_, ?_⟩
+  · intro i n hn ha
+    rw [hg] at hn
+    rw [R.interrupted]; exact h.amb i n hn ha
   · intro e' he'
     obtain ⟨i, hi⟩ := List.getElem?_of_mem he'
     have hlt : i < s.stack.length := by rw [← hext.1]; exact getElem?_lt_length hi
@@ -200,7 +203,9 @@ theorem Step.stackOnly {s s' : St} (hg : s'.graph = s.graph) (R : Rest s s')
       obtain ⟨i, n, hn, h2⟩ := h
       exact Or.inr ⟨i, n, by rw [hg]; exact hn, h2⟩
   refine ⟨⟨[], by rw [hg, List.append_nil], fun n hn => by cases hn⟩, hext,
-    fun k v h => R.inCache.mpr h, hd, ?_, by rw [R.cache]⟩
+    fun k v h => R.inCache.mpr h, hd, ?_, by rw [R.cache], fun e => by rw [R.interrupted]; exact e,
+    fun q => ⟨⟨by rw [R.oracle]; exact q.1, by rw [R.oracleDefault]; exact q.2⟩,
+      fun e => by rw [R.interrupted]; exact e⟩⟩
   intro k hu hdef
   exfalso
   cases hdef with
@@ -210,11 +215,14 @@ theorem Step.stackOnly {s s' : St} (hg : s'.graph = s.graph) (R : Rest s s')
     rw [hg] at hn
     exact hu _ (Or.inr ⟨i, n, hn, h2⟩)
 
-theorem Inv.not_inG_of_bot {s : St} (h : Inv c inst dom s) {k : Nat} (hd : Def s k (bot c)) :
+theorem Inv.not_inG_of_bot {s : St} (h : Inv c inst dom fx s) {k : Nat} (hd : Def s k (bot c)) :
     ¬ InG c inst s k := by
   intro hin
   cases hin.unfold with
-  | inl h2 => exact top_ne_bot c (h.defFun h2 hd)
+  | inl h2 =>
+    cases h2 with
+    | inl h3 => exact top_ne_bot c (h.defFun h3 hd)
+    | inr h3 => exact bot_ne_ambig c (h.defFun hd h3)
   | inr h2 => exact h2.1 _ hd
 
 theorem mixedFrom_false {st : List StackEntry} (h : ∀ e, e ∈ st → e.coinductiveGoal = c) (d : Nat) :
@@ -236,8 +244,8 @@ theorem mixedFrom_false {st : List StackEntry} (h : ∀ e, e ∈ st → e.coindu
     simp [this]
 
 /-- the state after the push starts the loop -/
-theorem push_loopSt (hyp : Hyp c inst dom) {s0 : St} (i0 : Inv c inst dom s0) {g : Nat} (hu : Undef s0 g)
-    (hg : g ∈ dom) : LoopSt c inst dom s0 g (pushed inst g s0) := by
+theorem push_loopSt (hyp : Hyp c inst dom) {s0 : St} (i0 : Inv c inst dom fx s0) {g : Nat} (hu : Undef s0 g)
+    (hg : g ∈ dom) : LoopSt c inst dom fx s0 g (pushed inst g s0) := by
   have hco : inst.coind g = c := hyp.coind g hg
   have hgr : (pushed inst g s0).graph = s0.graph ++ [headNode s0 g (top c)] := by
     simp only [pushed, headNode, top, hco]
@@ -260,8 +268,12 @@ theorem push_loopSt (hyp : Hyp c inst dom) {s0 : St} (i0 : Inv c inst dom s0) {g
     rw [hgr] at hn
     exact single_cases _ _ i n hn
   have hcache : ∀ k v, InCache (pushed inst g s0) k v ↔ InCache s0 k v := fun k v => Iff.rfl
-  have hinv : Inv c inst dom (pushed inst g s0) := by
-    refine ⟨i0.quiet, i0.cacheOK, ?_, ?_, ?_, ?_, ?_, ?_, ?_, ?_, ?_, ?_⟩
+  have hinv : Inv c inst dom fx (pushed inst g s0) := by
+    refine ⟨i0.fixes, ?_, i0.cacheOK, ?_, ?_, ?_, ?_, ?_, ?_, ?_, ?_, ?_, ?_⟩
+    · intro i n hn ha
+      cases hnode hn with
+      | inl h => exact i0.amb i n h.2 ha
+      | inr h => rw [h.2] at ha; exact absurd ha (top_ne_ambig c)
     · intro e he
       rw [hst] at he
       cases List.mem_append.mp he with
@@ -310,7 +322,7 @@ theorem push_loopSt (hyp : Hyp c inst dom) {s0 : St} (i0 : Inv c inst dom s0) {g
       cases hnode hn with
       | inl h => exact J.mono (fun j hj => hj.from0 ⟨_, hgr⟩ hflag) (i0.just i n h.2 hd htop)
       | inr h => rw [h.2] at hd; cases hd
-  refine ⟨i0, hu, hg, hinv, ⟨top c, hgr⟩, hlen, hsext, fun k v h => h, ?_, rfl⟩
+  refine ⟨i0, hu, hg, hinv, ⟨top c, hgr⟩, hlen, hsext, fun k v h => h, ?_, rfl, id, fun q => ⟨q, id⟩⟩
   intro k hu' hd
   exfalso
   cases hd with
@@ -321,9 +333,9 @@ theorem push_loopSt (hyp : Hyp c inst dom) {s0 : St} (i0 : Inv c inst dom s0) {g
     | inl h1 => exact hu' _ (Or.inr ⟨i, n, h1.2, hgo, hv⟩)
     | inr h1 => rw [h1.2] at hv; exact top_ne_bot c hv
 
-theorem LoopSt.work {s0 st : St} {g : Nat} (L : LoopSt c inst dom s0 g st) (w : Nat) :
-    LoopSt c inst dom s0 g { st with work := w } :=
-  ⟨L.i0, L.u0, L.gdom, L.inv.work w, L.graph, L.slen, L.sext, L.cacheExt, L.low, L.cacheMode⟩
+theorem LoopSt.work {s0 st : St} {g : Nat} (L : LoopSt c inst dom fx s0 g st) (w : Nat) :
+    LoopSt c inst dom fx s0 g { st with work := w } :=
+  ⟨L.i0, L.u0, L.gdom, L.inv.work w, L.graph, L.slen, L.sext, L.cacheExt, L.low, L.cacheMode, L.intr, L.quiet⟩
 
 end
 
